@@ -129,3 +129,9 @@ def run(ctx):
     ctx.rule('SIBLING-INDEX', 'shared with C05: the typed read variants of a block codec address its decoded block buffer identically (a read through another sample type sees the same frames)', floor=30)
     from engine.siblings import check_siblings
     check_siblings(ctx, prog, 'SIBLING-INDEX', ('pcm.c', 'float32.c', 'double64.c', 'ulaw.c', 'alaw.c'))
+
+    ctx.rule('DECODE-STATE', 'what a block decoder carries from one block to the next (private fields it reads before writing and also writes) is re-established by every seek function of the codec '
+             'that calls it: after a seek the decoded samples depend on the frame position only, not on what was decoded before', floor=8)
+    from engine.stateless import decode_state
+    ctx.require(decode_state(ctx, prog) >= 8, 'too few decoder / seek pairs found')
+
